@@ -92,6 +92,12 @@ def main():
                 log("rapidquilt build failed:\n" + b_log[-3000:])
                 ctx.build_problems.append("rapidquilt does not build: " + b_log[-400:])
             ctx.binary = bexe
+            if getattr(mod, "NEEDS_HOOKED_BINARY", False):
+                ok_b, b_log, hexe = rqlib.build_binary(hooked=True)
+                if not ok_b:
+                    log("rapidquilt (hooked) build failed:\n" + b_log[-3000:])
+                    ctx.build_problems.append("rapidquilt with --cfg opensuse_rapidquilt_verif does not build: " + b_log[-400:])
+                ctx.hooked_binary = hexe
         forbidden = rqlib.scan_forbidden()
         proof = rqlib.check_obligations(prop)
     ctx.proof = proof
